@@ -33,7 +33,9 @@ Definition bytes := list Z.
 (* one switch per repair (notes/C13-fixes):
    fx_snt   01 sub-node table length must equal the header's entry count; num_sub_nodes <= entries_for_sub_nodes
    fx_dct   02 data-chunk table length must equal the header's number_of_data_chunks
-   fx_link  03 ADF_Get_Link_Path / ADF_Link_Size: type exactly LK, one dimension, 1 <= length <= 5121 / file_bytes,
+   fx_lfile, fx_lpath, fx_lnosep   the three output-side guards of repair 03, one switch each: file part <= 1024
+               characters; path part behind a separator <= 4096; path of a payload WITHOUT separator <= 4096
+   fx_link  03 (input side) ADF_Get_Link_Path / ADF_Link_Size: type exactly LK, one dimension, 1 <= length <= 5121 / file_bytes,
                file part <= 1024 and path part <= 4096 characters
    fx_nest  04 ADF_MAXIMUM_LINK_DEPTH also bounds the nesting of ADFI_chase_link activations (/repo 8281ca0)
    fx_fmt   05 unknown format / OS-size letters are ADF_FILE_FORMAT_NOT_RECOGNIZED (was: assert, shift of a negative char)
@@ -47,13 +49,16 @@ Definition bytes := list Z.
    fx_rad   15 ADF_Read_All_Data: a data chunk that ends before it starts is ADF_DISK_TAG_ERROR; the zero fill of missing
                data counts bytes of memory, not of the file *)
 Record fixes := { fx_snt : bool; fx_dct : bool; fx_link : bool; fx_nest : bool; fx_fmt : bool; fx_tag : bool;
-                  fx_dtov : bool; fx_rtype : bool; fx_dim : bool; fx_short : bool; fx_sizes : bool; fx_rad : bool }.
+                  fx_dtov : bool; fx_rtype : bool; fx_dim : bool; fx_short : bool; fx_sizes : bool; fx_rad : bool;
+                  fx_lfile : bool; fx_lpath : bool; fx_lnosep : bool }.
 Definition legacy : fixes :=
   {| fx_snt := false; fx_dct := false; fx_link := false; fx_nest := false; fx_fmt := false; fx_tag := false;
-     fx_dtov := false; fx_rtype := false; fx_dim := false; fx_short := false; fx_sizes := false; fx_rad := false |}.
+     fx_dtov := false; fx_rtype := false; fx_dim := false; fx_short := false; fx_sizes := false; fx_rad := false;
+     fx_lfile := false; fx_lpath := false; fx_lnosep := false |}.
 Definition repaired : fixes :=
   {| fx_snt := true; fx_dct := true; fx_link := true; fx_nest := true; fx_fmt := true; fx_tag := true;
-     fx_dtov := true; fx_rtype := true; fx_dim := true; fx_short := true; fx_sizes := true; fx_rad := true |}.
+     fx_dtov := true; fx_rtype := true; fx_dim := true; fx_short := true; fx_sizes := true; fx_rad := true;
+     fx_lfile := true; fx_lpath := true; fx_lnosep := true |}.
 
 Inductive out (A : Type) : Type :=
 | Ok (a : A) | Err (code : Z) | OOBW (site : Z) | OOBR (site : Z) | Uninit | Stale | Abort | UB | Ext | OutOfFuel.
